@@ -52,12 +52,22 @@ def chunksOf (sizes : List Nat) : Nat → Nat → List Byte → List (List Byte)
     let sz := max 1 (sizes.getD (k % max 1 sizes.length) 1)
     bs.take sz :: chunksOf sizes n (k + 1) (bs.drop sz)
 
-def check (shared : Bool) (script : List Byte) (chunks : Option (List (List Byte)))
-    (r : State × Outcome × List Iter) : String :=
+/-- `prefix_monotone` evaluated at the given prefixes: a prefix whose own run ends cleanly has a trace
+    that the whole run extends -/
+def checkPrefixes (shared : Bool) (data : List Byte) (full : List Out) : List (List Byte) → Bool
+  | [] => true
+  | p :: ps =>
+    let r := run shared p data
+    (if r.2.1 == .eof && !r.1.hitEof then (traceOf r).isPrefixOf full else true)
+      && checkPrefixes shared data full ps
+
+def check (shared : Bool) (script data : List Byte) (prefixes : List (List Byte))
+    (chunks : Option (List (List Byte))) (r : State × Outcome × List Iter) : String :=
   match checkLog script r.2.2 with
   | some w => "FAIL:" ++ w
   | none =>
     if shared && !(probeOffsets r.1.out).all (lineStart script) then "FAIL:offset-inside-line"
+    else if !checkPrefixes shared data (traceOf r) prefixes then "FAIL:prefix-not-monotone"
     else match chunks with
       | some cs =>
         if cs.flatten != script then "FAIL:chunks"
